@@ -15,9 +15,9 @@ def model_check(ck, tier):
         ck.add_tlc("TieredSearch model check %s" % g, r, note="invariants HitIsFresh AnswersValid QcBounded QcKeysUnique")
 
 
-def generate(n, depth, capq, maxk, seed_off=0, np_=6):
+def generate(n, depth, capq, maxk, seed_off=0, np_=6, ni_=NI, nsc=2):
     return tlc("TieredSearch", cfg="TieredSearchGen.cfg",
-               consts=dict(NI=NI, NP=np_, CapQ=capq, MaxK=maxk, NScopes=2, MaxOps=depth, BoundaryRule='"le"'),
+               consts=dict(NI=ni_, NP=np_, CapQ=capq, MaxK=maxk, NScopes=nsc, MaxOps=depth, BoundaryRule='"le"'),
                simulate=n, depth=depth + 2, seed_=seed() * 37 + seed_off)
 
 
@@ -40,6 +40,13 @@ def replay_and_judge(ck, behaviours, capq, tag):
     bad_runs = {}
     for ln in bad:
         bad_runs.setdefault(run_of[ln - 1], ln)
+    # size violations (C20) are reported separately by the trace spec
+    import re
+    m = re.search(r'<<\s*"SIZE-RESULT",\s*(\d+),\s*<<(.*?)>>\s*>>', r.out, re.S)
+    size_bad = [int(x) for x in m.group(2).replace("\n", " ").split(",") if x.strip()] if m and m.group(2).strip() else []
+    replay_and_judge.size_bad = {}
+    for ln in size_bad:
+        replay_and_judge.size_bad.setdefault(run_of[ln - 1], ln)
     return stats, events, cfgs, bad_runs
 
 
